@@ -357,42 +357,135 @@ theorem framed_processTsig (hb : 4 ≤ b) (cfg : Cfg) (now : Nat) (t : Tsig.Read
     · exact hbad nowT s hc hr
     · split
       · exact hbad nowT s hc hr
-      · rename_i alg _ key _
-        -- the (rcode, error, mode) triple: every RCODE it can hold is below 16
-        generalize hres : Tsig.verifyRequest Tsig.realHmac t mw.toList alg key.secret nowT = res
-        cases res with
-        | ok u =>
-          simp only
-          split
-          · refine framed_bind (framed_setRcode b hb _ c0) (fun _ => ?_) s hc hr
-            refine framed_bind (framed_setTsigOrTruncate b hb _ _) fun added => ?_
-            split <;> exact framed_pure b _
-          · exact Fr.refl b s hc
-        | err e =>
-          cases e with
-          | BadSig =>
-            simp only
-            split
-            · refine framed_bind (framed_setRcode b hb _ c9) (fun _ => ?_) s hc hr
-              refine framed_bind (framed_setTsigOrTruncate b hb _ _) fun added => ?_
-              split <;> exact framed_pure b _
-            · exact Fr.refl b s hc
-          | BadTime =>
-            simp only
-            split
-            · refine framed_bind (framed_setRcode b hb _ c9) (fun _ => ?_) s hc hr
-              refine framed_bind (framed_setTsigOrTruncate b hb _ _) fun added => ?_
-              split <;> exact framed_pure b _
-            · exact Fr.refl b s hc
-          | FormErr =>
-            simp only
-            split
-            · refine framed_bind (framed_setRcode b hb _ c1) (fun _ => ?_) s hc hr
-              refine framed_bind (framed_setTsigOrTruncate b hb _ _) fun added => ?_
-              split <;> exact framed_pure b _
-            · exact Fr.refl b s hc
-        | panic =>
-          simp only
-          exact Fr.refl b s hc
+      · have hlt : ∀ res (alg : Tsig.Algorithm) (sec : List UInt8), (tsigOutcome res alg t sec).1 < 16 := by
+          intro res alg sec
+          unfold tsigOutcome
+          split <;> first | exact c0 | exact c9 | exact c1 | decide
+        split
+        · refine framed_bind (framed_setRcode b hb _ (hlt _ _ _)) (fun _ => ?_) s hc hr
+          refine framed_bind (framed_setTsigOrTruncate b hb _ _) fun added => ?_
+          split <;> exact framed_pure b _
+        · exact Fr.refl b s hc
+
+
+theorem framed_formErr {α} (hb : 4 ≤ b) (a : α) : Framed b (do setRcode (RC "FORMERR"); pure a : M α) :=
+  framed_bind (framed_setRcode b hb _ (by decide)) fun _ => framed_pure b a
+
+theorem framed_handleTsig (hb : 4 ≤ b) (cfg : Cfg) (now : Nat) (p : Reader.PeekRr) (raw : Nat) :
+    Framed b (handleTsig cfg now p raw) := by
+  intro s hc hr
+  unfold handleTsig
+  split
+  · split
+    · split
+      · exact framed_formErr b hb _ s hc hr
+      · split
+        · exact framed_formErr b hb _ s hc hr
+        · exact Fr.refl b s hc
+        · exact Fr.refl b s hc
+        · exact framed_processTsig b hb cfg now _ _ _ s hc hr
+    · exact framed_formErr b hb _ s hc hr
+    · exact Fr.refl b s hc
+  · exact Fr.refl b s hc
+
+theorem framed_scanAr (hb : 4 ≤ b) (cfg : Cfg) (tr : Transport) (now arcount : Nat) :
+    ∀ (n index : Nat) (st : ScanSt), Framed b (scanAr cfg tr now arcount n index st) := by
+  intro n
+  induction n with
+  | zero => intro index st; exact framed_pure b _
+  | succ n ih =>
+    intro index st s hc hr
+    unfold scanAr
+    split
+    · split
+      · split
+        · split
+          · exact framed_formErr b hb _ s hc hr
+          · have h1 := framed_setEdns b cfg.payload s hc hr
+            rcases he : setEdns cfg.payload s with ⟨(a | e | _), s1⟩
+            · rw [he] at h1
+              have hr1 : b ≤ s1.rrStart := by rw [h1.rrStart]; exact hr
+              simp only
+              split
+              · split
+                · have hrest : ∀ (owner : List UInt8) (t : Nat) (st' : ScanSt), Framed b
+                      (if owner ≠ [0] then do
+                          Writer.unwrap (setExtendedRcode (XRC "FORMERR"))
+                          pure none
+                        else if t / 65536 % 256 ≠ 0 then do
+                          Writer.unwrap (setExtendedRcode (XRC "BADVERSBADSIG"))
+                          pure none
+                        else scanAr cfg tr now arcount n (index + 1) st') := by
+                    intro owner t st'
+                    split
+                    · exact framed_bind (framed_unwrap b _ (framed_setExtendedRcode b hb _)) fun _ => framed_pure b _
+                    · split
+                      · exact framed_bind (framed_unwrap b _ (framed_setExtendedRcode b hb _)) fun _ => framed_pure b _
+                      · exact ih _ _
+                  split
+                  · exact h1.trans (framed_bind (framed_setLimit b _) (fun _ => hrest _ _ _) s1 h1.cur hr1)
+                  · exact h1.trans (hrest _ _ _ s1 h1.cur hr1)
+                · exact h1.trans (framed_formErr b hb _ s1 h1.cur hr1)
+                · exact h1
+              · exact h1
+            · rw [he] at h1
+              simp only
+              exact h1.trans (framed_bind (framed_setRcode b hb _ (by decide)) (fun _ => framed_pure b _) s1 h1.cur
+                (by rw [h1.rrStart]; exact hr))
+            · rw [he] at h1; exact h1
+        · split
+          · split
+            · exact framed_formErr b hb _ s hc hr
+            · split
+              · rename_i p _ _ _ _ _ _ _ _ raw _
+                have h1 := framed_handleTsig b hb cfg now p raw s hc hr
+                rcases ht : handleTsig cfg now p raw s with ⟨(a | e | _), s1⟩
+                · rw [ht] at h1
+                  cases a with
+                  | some r' => exact h1.trans (ih _ _ s1 h1.cur (by rw [h1.rrStart]; exact hr))
+                  | none => exact h1
+                · rw [ht] at h1; exact h1
+                · rw [ht] at h1; exact h1
+              · exact Fr.refl b s hc
+          · exact ih _ _ s hc hr
+      · exact Fr.refl b s hc
+    · exact framed_formErr b hb _ s hc hr
+    · exact Fr.refl b s hc
+
+theorem framed_handleQuery (hb : 4 ≤ b) (cfg : Cfg) (question : Option (WName × Nat × Nat)) (tr : Transport) :
+    Framed b (handleQuery cfg question tr) := by
+  unfold handleQuery
+  split
+  · exact framed_setRcode b hb _ (by decide)
+  · split
+    · exact framed_setRcode b hb _ (by decide)
+    · split
+      · exact framed_setRcode b hb _ (by decide)
+      · split
+        · split
+          · split
+            · exact framed_handleNonAxfrQuery b hb _ _ _ _
+            · exact framed_panic b
+          · exact framed_setRcode b hb _ (by decide)
+        · exact framed_setRcode b hb _ (by decide)
+
+/-- **the whole of `handle_message_with_context` after the question frames**: the three section
+    scans, OPT and TSIG processing, the opcode dispatch and the answering phase leave the ID, QR,
+    opcode, RD, RA, Z/AD/CD bits, the question octets, QDCOUNT and `rr_start` alone -/
+theorem framed_scanAndDispatch (hb : 4 ≤ b) (cfg : Cfg) (tr : Transport) (now an ns ar opcode : Nat)
+    (question : Option (WName × Nat × Nat)) (r1 : Reader.Reader) :
+    Framed b (scanAndDispatch cfg tr now an ns ar opcode question r1) := by
+  unfold scanAndDispatch
+  simp only
+  split
+  · exact framed_formErr b hb true
+  · refine framed_bind (framed_scanAr b hb cfg tr now ar ar 0 _) fun st => ?_
+    split
+    · exact framed_pure b true
+    · split
+      · exact framed_formErr b hb true
+      · split
+        · exact framed_bind (framed_handleQuery b hb cfg question tr) fun _ => framed_pure b true
+        · exact framed_bind (framed_setRcode b hb _ (by decide)) fun _ => framed_pure b true
 
 end QV.Server
